@@ -101,6 +101,14 @@ def main(argv=None):
     probe.install_coverage(repo)
     mod.setup(ctx)
     probe.arm()
+    if os.environ.get('VERIF_NO_PROCESS_HISTORY', '') == '' and getattr(mod, 'PROCESS_HISTORY', True):
+        # (also when a single case is replayed: the recorded shard number selects the same history)
+        from vt.props import _primer
+        try:
+            ctx.begin_case('process_history', a.shard)
+            _primer.run(ctx, a.shard)
+        except Exception:
+            probe.monitor_error('driver:process_history', 'driver')
     t0 = time.time()
     truncated = False
     for wl in mod.WORKLOADS:
